@@ -6,6 +6,7 @@ package main
 import (
 	"fmt"
 	"math"
+	"os"
 	"reflect"
 	"sort"
 	"strings"
@@ -67,10 +68,24 @@ func ctorsOf(typeKey string) []string {
 	return out
 }
 
+// focusTypes (VERIF_FOCUS=type,type,...) restricts a run to the listed types: the search for a failing input after a
+// proof obligation or a model/source tie broke concentrates its budget on what changed.
+var focusTypes = func() map[string]bool {
+	v := os.Getenv("VERIF_FOCUS")
+	if v == "" {
+		return nil
+	}
+	m := map[string]bool{}
+	for _, k := range strings.Split(v, ",") {
+		m[strings.TrimSpace(k)] = true
+	}
+	return m
+}()
+
 func typeKeys(kind string) []string {
 	var out []string
 	for k, t := range genTypes {
-		if t.Kind == kind {
+		if t.Kind == kind && (focusTypes == nil || focusTypes[k]) {
 			out = append(out, k)
 		}
 	}
@@ -433,9 +448,10 @@ func grid(x float64) float64 { return math.Round(x*64) / 64 }
 // randBars generates a valid OHLCV series (low <= open, close <= high, positive prices) on a dyadic
 // grid, in one of several regimes.
 func (c *Ctx) randBars(n int) (Bars, string) {
-	regimes := []string{"walk", "walk", "walk", "flat", "ties", "up", "down", "zerovol", "spiky"}
+	regimes := []string{"walk", "walk", "plateaus", "plateaus", "flat", "ties", "up", "down", "zerovol", "spiky"}
 	reg := regimes[c.Rng.IntN(len(regimes))]
 	b := Bars{}
+	plateau := 0 // remaining length of the current flat run (regime "plateaus": a walk interrupted by flat runs of 3..25 bars)
 	price := grid(20 + c.Rng.Float64()*200)
 	day := int64(11000 + c.Rng.IntN(3000))
 	for i := 0; i < n; i++ {
@@ -443,6 +459,16 @@ func (c *Ctx) randBars(n int) (Bars, string) {
 		switch reg {
 		case "walk":
 			cl = price + grid(c.Rng.NormFloat64()*2)
+		case "plateaus":
+			if plateau == 0 && c.Rng.IntN(6) == 0 {
+				plateau = 3 + c.Rng.IntN(23)
+			}
+			if plateau > 0 {
+				plateau--
+				cl = price
+			} else {
+				cl = price + grid(c.Rng.NormFloat64()*2)
+			}
 		case "flat":
 			cl = price
 		case "ties":
@@ -466,7 +492,7 @@ func (c *Ctx) randBars(n int) (Bars, string) {
 		op := price
 		hi := math.Max(op, cl)
 		lo := math.Min(op, cl)
-		if reg != "flat" && c.Rng.IntN(4) != 0 {
+		if reg != "flat" && !(reg == "plateaus" && cl == price) && c.Rng.IntN(4) != 0 {
 			hi += grid(c.Rng.Float64() * 2)
 			lo -= grid(c.Rng.Float64() * 2)
 			if lo < 0.5 {
@@ -494,14 +520,24 @@ func (c *Ctx) randBars(n int) (Bars, string) {
 
 // randSeries generates a plain numeric series (zeros, negatives, ties, flat and monotone runs).
 func (c *Ctx) randSeries(n int) ([]float64, string) {
-	regimes := []string{"walk", "walk", "zeros", "negative", "ties", "flat", "up", "down", "small-int"}
+	regimes := []string{"walk", "walk", "plateaus", "zeros", "negative", "ties", "flat", "up", "down", "small-int"}
 	reg := regimes[c.Rng.IntN(len(regimes))]
 	xs := make([]float64, n)
 	x := grid(c.Rng.Float64() * 100)
+	plateau := 0
 	for i := range xs {
 		switch reg {
 		case "walk":
 			x += grid(c.Rng.NormFloat64() * 3)
+		case "plateaus":
+			if plateau == 0 && c.Rng.IntN(6) == 0 {
+				plateau = 3 + c.Rng.IntN(23)
+			}
+			if plateau > 0 {
+				plateau--
+			} else {
+				x += grid(c.Rng.NormFloat64() * 3)
+			}
 		case "zeros":
 			if c.Rng.IntN(3) == 0 {
 				x = 0
